@@ -654,7 +654,11 @@ def sqrt_seq(ev, n, xfn, st):
     k2 = z3.Int(fresh_name("k"))
     r = as_num(out.at(k2)).t
     x = xfn(k2)
-    st.pc.append(z3.ForAll([k2], z3.Implies(z3.And(k2 >= 0, k2 < n, x >= 0), z3.And(r >= 0, r * r == x)), patterns=[r]))
+    body = z3.Implies(z3.And(k2 >= 0, k2 < n, x >= 0), z3.And(r >= 0, r * r == x))
+    try:
+        st.pc.append(z3.ForAll([k2], body, patterns=[r]))
+    except z3.Z3Exception:
+        st.pc.append(z3.ForAll([k2], body))        # the argument contains an if-then-else: let z3 choose the trigger
     return out
 
 
